@@ -92,6 +92,20 @@ PROPS["C10"] = {
     "exhaustive_note": "all 63 OR/AND shapes with <=6 leaves x all leaf valuations (4032 conditions)",
 }
 
+PROPS["C09"] = {
+    "kind": "harness", "test": "TestC09", "level": "exploration", "journal": False, "ulimit_v_kb": 16 * 1024 * 1024,
+    "tiers": tiers(8000, 4, 60000, 16),
+    "native_fuzz": {"target": "FuzzC09", "seconds": 150},
+    "rule": "inputs to exactly engine.parseSQL's pipeline (NewTokenScanner -> TokenList -> Parser.Parse) under recover() and a 10 s hang watchdog: (a) bounded-exhaustive: every sequence of 3 tokens over the full vocabulary "
+            "(all keywords, identifiers, delimited identifiers, small/20-digit/hex/octal/float/underscore numerals, strings, lone quotes, every punctuation and comment opener; ~130 tokens, split over the shards), thorough: also length 4 over ~50 class representatives; "
+            "(b) every kind of truncation (byte and token prefixes) of rapid-generated valid statements; (c) token-level mutations (delete/duplicate/swap/replace/splice); (d) a fixed list of hostile constants and the saved corpus; (e) random token soup, random bytes, "
+            "64 KiB repetition chains; thorough: plus native coverage-guided go test -fuzz on all cores. Non-trivial: input rejected by the parser with >=3 tokens, or a truncation of a valid statement; distinct by token-type sequence + verdict.",
+    "technique": "bounded-exhaustive token enumeration + grammar-based mutation (rapid) + native coverage-guided fuzzing; oracle: returns a statement or an error, no panic, terminates",
+    "level_text": "Totality search: exhaustive over short token sequences, random/grammar-mutational over longer inputs, coverage-guided in the thorough tier. Cannot show absence of a crashing input beyond the explored ones.",
+    "level_note": "A hang is declared only after 10 s without progress on one input (4 orders of magnitude above normal). Memory exhaustion would surface as a worker death (virtual memory capped), reported as inconclusive unless reproducible. Native fuzzing cannot be seeded; only its saved inputs are reproducible.",
+    "exhaustive_note": "all token sequences of length 3 over the full vocabulary (quick+thorough), length 4 over class representatives (thorough)",
+}
+
 HOOK_COMMITS = ["7ca683e"]
 
 NOT_APPLICABLE = {}
